@@ -1662,6 +1662,163 @@ theorem ellipse_edge_law (sqrt : Rat → Rat) (o : OcsT) (elev : Rat) (center ma
     have hc := (ellipse_transform_cases sqrt o.m _ out hout).1
     rw [← e1, hc, vertex2d_spec, vertex_spec]
 
+/-! ## 18. the convenience interface: translate / scale / scale_uniform / rotate_* = transform(matrix) (follow-up session)
+
+Found in the LIVE entity classes (T-tab, regenerated): only `translate` is overridden, by Circle (also ARC), Ellipse, Insert, Line,
+Point, Text (also ATTRIB / ATTDEF) and XLine (also RAY); every other method of every class is the DXFGraphic default
+`return self.transform(Matrix44.<factory>(…))`.  The seven fast paths are translated by py2lean (`translate<Class>`). -/
+
+/-- the override table of the live classes, the DXFGraphic defaults and the module functions of ezdxf.transform (each hands ONE
+    `Matrix44` factory call to `transform` / `inplace`) are what the model assumes: a new override, or a default that no longer
+    delegates, stops this proof until it is modelled -/
+theorem convenience_tables :
+    TransformKernels.convOverrides =
+      [("translate", "Circle"), ("translate", "Ellipse"), ("translate", "Insert"), ("translate", "Line"), ("translate", "Point"),
+       ("translate", "Text"), ("translate", "XLine")] ∧
+    TransformKernels.convDefaults =
+      [("rotate_axis", "Matrix44.axis_rotate(axis, angle)"), ("rotate_x", "Matrix44.x_rotate(angle)"),
+       ("rotate_y", "Matrix44.y_rotate(angle)"), ("rotate_z", "Matrix44.z_rotate(angle)"), ("scale", "Matrix44.scale(sx, sy, sz)"),
+       ("scale_uniform", "Matrix44.scale(s)"), ("translate", "Matrix44.translate(dx, dy, dz)")] ∧
+    TransformKernels.insertTranslatesAttribs = true ∧
+    TransformKernels.xtDefaults =
+      [("axis_rotate", "Matrix44.axis_rotate(v, a)"), ("scale", "Matrix44.scale(safe(sx), safe(sy), safe(sz))"),
+       ("scale_uniform", "Matrix44.scale(f, f, f)"), ("translate", "Matrix44.translate(v.x, v.y, v.z)"),
+       ("x_rotate", "Matrix44.x_rotate(a)"), ("y_rotate", "Matrix44.y_rotate(a)"), ("z_rotate", "Matrix44.z_rotate(a)")] := by
+  decide +kernel
+
+/-- `Matrix44.translate(dx, dy, dz)` (regenerated) moves points by the offset and leaves directions alone -/
+theorem translate_matrix_law (dx dy dz : Rat) (p v : V3) :
+    apply (TransformKernels.m44Translate dx dy dz) p = V3.add p ⟨dx, dy, dz⟩ ∧
+    applyDir (TransformKernels.m44Translate dx dy dz) v = v ∧ M44.IsAffine (TransformKernels.m44Translate dx dy dz) := by
+  refine ⟨?_, ?_, by simp [M44.IsAffine, TransformKernels.m44Translate]⟩
+  · simp only [apply, TransformKernels.mTransform, TransformKernels.m44Translate, V3.add, V3.mk.injEq]
+    refine ⟨?_, ?_, ?_⟩ <;> ring
+  · simp only [applyDir, TransformKernels.mTransformDirection, TransformKernels.m44Translate]
+    ext <;> simp
+
+/-- translate_eq_transform (WCS classes): the fast paths of LINE, POINT, XLINE/RAY and ELLIPSE store exactly what
+    `transform(Matrix44.translate(dx, dy, dz))` stores for these points (`m.transform`) -/
+theorem translate_eq_transform_wcs (dx dy dz : Rat) (p q : V3) :
+    TransformKernels.translateLine p q dx dy dz
+      = (apply (TransformKernels.m44Translate dx dy dz) p, apply (TransformKernels.m44Translate dx dy dz) q) ∧
+    TransformKernels.translatePoint p dx dy dz = apply (TransformKernels.m44Translate dx dy dz) p ∧
+    TransformKernels.translateXLine p dx dy dz = apply (TransformKernels.m44Translate dx dy dz) p ∧
+    TransformKernels.translateEllipse p dx dy dz = apply (TransformKernels.m44Translate dx dy dz) p := by
+  simp only [TransformKernels.translateLine, TransformKernels.translatePoint, TransformKernels.translateXLine,
+    TransformKernels.translateEllipse, apply, TransformKernels.mTransform, TransformKernels.m44Translate, Prod.mk.injEq, V3.mk.injEq]
+  refine ⟨⟨⟨?_, ?_, ?_⟩, ⟨?_, ?_, ?_⟩⟩, ⟨?_, ?_, ?_⟩, ⟨?_, ?_, ?_⟩, ⟨?_, ?_, ?_⟩⟩ <;> ring
+
+/-- translate_eq_transform (OCS classes): the fast paths of CIRCLE/ARC (centre), TEXT/ATTRIB/ATTDEF (insert and align point) and
+    INSERT (insert) store exactly `OCSTransform.transform_vertex` for the matrix `Matrix44.translate(dx, dy, dz)` between the OCS
+    and itself — what `transform()` stores, since a translation keeps the extrusion — for EVERY OCS, tilted ones included
+    (`Text.translate` with `ocs.to_wcs(offset)` instead, seeded change C12-m6, regenerates a different kernel: this proof fails) -/
+theorem translate_eq_transform_ocs (o : Ocs) (dx dy dz : Rat) (p q : V3) :
+    TransformKernels.translateCircle o.t o.m p dx dy dz = OcsT.vertex ⟨TransformKernels.m44Translate dx dy dz, o, o, true⟩ p ∧
+    TransformKernels.translateInsert o.t o.m p dx dy dz = OcsT.vertex ⟨TransformKernels.m44Translate dx dy dz, o, o, true⟩ p ∧
+    TransformKernels.translateText o.t o.m p q dx dy dz
+      = (OcsT.vertex ⟨TransformKernels.m44Translate dx dy dz, o, o, true⟩ p, OcsT.vertex ⟨TransformKernels.m44Translate dx dy dz, o, o, true⟩ q) := by
+  obtain ⟨t, M⟩ := o
+  cases t <;>
+    simp only [TransformKernels.translateCircle, TransformKernels.translateInsert, TransformKernels.translateText, OcsT.vertex,
+      TransformKernels.otVertex, TransformKernels.m44Translate, Prod.mk.injEq, V3.mk.injEq, if_true, Bool.false_eq_true, if_false] <;>
+    refine ⟨⟨?_, ?_, ?_⟩, ⟨?_, ?_, ?_⟩, ⟨?_, ?_, ?_⟩, ⟨?_, ?_, ?_⟩⟩ <;> ring
+
+/-- translate_law: geometric reading for an orthonormal OCS: the WCS position of the stored point moves by exactly (dx, dy, dz),
+    and every direction (rotation, angles, axes) and length is what `transform` would compute: unchanged -/
+theorem translate_law (o : Ocs) (h : o.Orthonormal) (dx dy dz : Rat) (p v : V3) :
+    o.toWcs (TransformKernels.translateCircle o.t o.m p dx dy dz) = V3.add (o.toWcs p) ⟨dx, dy, dz⟩ ∧
+    o.toWcs (TransformKernels.translateText o.t o.m p v dx dy dz).1 = V3.add (o.toWcs p) ⟨dx, dy, dz⟩ ∧
+    o.toWcs (TransformKernels.translateText o.t o.m p v dx dy dz).2 = V3.add (o.toWcs v) ⟨dx, dy, dz⟩ ∧
+    o.toWcs (TransformKernels.translateInsert o.t o.m p dx dy dz) = V3.add (o.toWcs p) ⟨dx, dy, dz⟩ ∧
+    OcsT.direction ⟨TransformKernels.m44Translate dx dy dz, o, o, true⟩ v = v := by
+  obtain ⟨e1, e2, e3⟩ := translate_eq_transform_ocs o dx dy dz p v
+  rw [e1, e2, e3]
+  have hv := fun q => (ocs_vertex_law ⟨TransformKernels.m44Translate dx dy dz, o, o, true⟩ h q).1
+  simp only at hv
+  refine ⟨?_, ?_, ?_, ?_, ?_⟩
+  · rw [hv, (translate_matrix_law dx dy dz _ v).1]
+  · rw [hv, (translate_matrix_law dx dy dz _ v).1]
+  · rw [hv, (translate_matrix_law dx dy dz _ v).1]
+  · rw [hv, (translate_matrix_law dx dy dz _ v).1]
+  · rw [direction_spec]
+    simp only
+    rw [(translate_matrix_law dx dy dz p _).2.1, fromWcs_toWcs o h]
+
+/-! ## 19. `Insert.matrix44()` regenerated (follow-up session) -/
+
+/-- matrix44_base_point_law: `Insert.matrix44()` — translated statement by statement (order kept) over the Cython twin of
+    Matrix44 — maps the BASE POINT of the block onto the insertion point of the reference, for every OCS, scale factors, rotation
+    (c, s), insert and base point, and its last column is (0, 0, 0, 1): the translation row is `insert − base·L` for the FINAL linear
+    part L (scaling, OCS, rotation).  Computing the offset before the rotation is applied (seeded changes C12-m1 / C12-m5)
+    regenerates a kernel for which this proof fails. -/
+theorem matrix44_base_point_law (o : Ocs) (sx sy sz c s r1 : Rat) (ins base : V3) (M : M44)
+    (h : TransformKernels.insertMatrixGen o.t o.m sx sy sz ins base c s r1 = .ok M) :
+    apply M base = o.toWcs ins ∧ M44.IsAffine M := by
+  obtain ⟨t, m⟩ := o
+  cases t
+  · simp only [TransformKernels.insertMatrixGen, Bool.false_eq_true, if_false, Except.ok.injEq] at h
+    subst h
+    refine ⟨?_, by simp [M44.IsAffine]⟩
+    simp only [apply, TransformKernels.mTransform, Ocs.toWcs, TransformKernels.ocsToWcs, Bool.false_eq_true, if_false, V3.mk.injEq]
+    refine ⟨?_, ?_, ?_⟩ <;> ring
+  · simp only [TransformKernels.insertMatrixGen, if_true] at h
+    split_ifs at h with h0
+    simp only [Except.ok.injEq] at h
+    subst h
+    refine ⟨?_, by simp [M44.IsAffine]⟩
+    simp only [apply, TransformKernels.mTransform, Ocs.toWcs, TransformKernels.ocsToWcs, if_true, V3.mk.injEq]
+    refine ⟨?_, ?_, ?_⟩ <;> ring
+
+/-- matrix44_spec: for an orthonormal right-handed OCS (what `OCS.__init__` builds) the regenerated `Insert.matrix44()` IS the
+    closed form `insertMatrix` the other INSERT theorems talk about (insert_matrix_law, insert_transform_law, minsert_grid_law,
+    nested_insert, upright_insert): x-axis sx·(c·Ux + s·Uy), y-axis sy·(−s·Ux + c·Uy), z-axis sz·Uz, translation
+    insert − base·L.  r1 = |Uz| is the one square root (`axis_rotate` normalises its axis); (c, s) need not be normalised. -/
+theorem matrix44_spec (m : M44) (sx sy sz c s r1 : Rat) (ins base : V3) (M : M44)
+    (ho : (Ocs.mk true m).Orthonormal) (hrh : (Ocs.mk true m).RightHanded)
+    (h1 : r1 * r1 = TransformKernels.insertMatrixGen_rad1 true m sx sy sz ins base c s) (hp : 0 < r1)
+    (h : TransformKernels.insertMatrixGen true m sx sy sz ins base c s r1 = .ok M) :
+    M = insertMatrix ⟨true, m⟩ ⟨ins, sx, sy, sz, ⟨c, s⟩⟩ base := by
+  obtain ⟨hA, hB⟩ := frame_cross ⟨true, m⟩ ho hrh
+  obtain ⟨hxx, hyy, hzz, hxy, hxz, hyz⟩ := ho
+  simp only [Ocs.ux, Ocs.uy, Ocs.uz, M44.ux, M44.uy, M44.uz, if_true, V3.dot, V3.cross, V3.smul, V3.mk.injEq] at hA hB hxx hyy hzz hxy hxz hyz
+  obtain ⟨hA1, hA2, hA3⟩ := hA
+  obtain ⟨hB1, hB2, hB3⟩ := hB
+  have hr : r1 = 1 := by
+    simp only [TransformKernels.insertMatrixGen_rad1, if_true] at h1
+    have : (r1 - 1) * (r1 + 1) = 0 := by linear_combination h1 + hzz
+    rcases mul_eq_zero.mp this with e | e <;> linarith
+  subst hr
+  simp only [TransformKernels.insertMatrixGen, if_true, one_ne_zero, if_false, Except.ok.injEq] at h
+  subst h
+  simp only [insertMatrix, Ocs.ux, Ocs.uy, Ocs.uz, Ocs.toWcs, TransformKernels.ocsToWcs, M44.ux, M44.uy, M44.uz, if_true, V3.add, V3.sub,
+    V3.smul, M44.mk.injEq]
+  refine ⟨?_, ?_, ?_, ?_, ?_, ?_, ?_, ?_, ?_, ?_, ?_, ?_, ?_, ?_, ?_, ?_⟩
+  · linear_combination ((sx * s) * hA1 + (sx * (1 - c) * m.m8) * hxz)
+  · linear_combination ((sx * s) * hA2 + (sx * (1 - c) * m.m9) * hxz)
+  · linear_combination ((sx * s) * hA3 + (sx * (1 - c) * m.m10) * hxz)
+  · ring
+  · linear_combination ((sy * s) * hB1 + (sy * (1 - c) * m.m8) * hyz)
+  · linear_combination ((sy * s) * hB2 + (sy * (1 - c) * m.m9) * hyz)
+  · linear_combination ((sy * s) * hB3 + (sy * (1 - c) * m.m10) * hyz)
+  · ring
+  · linear_combination (sz * (1 - c) * m.m8) * hzz
+  · linear_combination (sz * (1 - c) * m.m9) * hzz
+  · linear_combination (sz * (1 - c) * m.m10) * hzz
+  · ring
+  · linear_combination (-base.x) * ((sx * s) * hA1 + (sx * (1 - c) * m.m8) * hxz) + (-base.y) * ((sy * s) * hB1 + (sy * (1 - c) * m.m8) * hyz) + (-base.z) * ((sz * (1 - c) * m.m8) * hzz)
+  · linear_combination (-base.x) * ((sx * s) * hA2 + (sx * (1 - c) * m.m9) * hxz) + (-base.y) * ((sy * s) * hB2 + (sy * (1 - c) * m.m9) * hyz) + (-base.z) * ((sz * (1 - c) * m.m9) * hzz)
+  · linear_combination (-base.x) * ((sx * s) * hA3 + (sx * (1 - c) * m.m10) * hxz) + (-base.y) * ((sy * s) * hB3 + (sy * (1 - c) * m.m10) * hyz) + (-base.z) * ((sz * (1 - c) * m.m10) * hzz)
+  · trivial
+
+/-- the hand-written `insertMatrix` (used by insert_matrix_law, insert_transform_law, nested_insert) has the same defining
+    property, so model and regenerated code agree on where the base point goes; their linear parts are tied by X4 -/
+theorem insertMatrix_base_point (o : Ocs) (i : Ins) (base : V3) : apply (insertMatrix o i base) base = o.toWcs i.insert := by
+  simp only [insertMatrix]
+  generalize o.toWcs i.insert = q
+  obtain ⟨q1, q2, q3⟩ := q
+  simp only [apply, TransformKernels.mTransform, V3.add, V3.sub, V3.smul, V3.mk.injEq]
+  refine ⟨?_, ?_, ?_⟩ <;> ring
+
 /-! ## non-vacuity: the hypotheses used above are met by non-trivial values -/
 
 
@@ -1773,6 +1930,15 @@ def sqrtS : Rat → Rat := fun x =>
   else if x = 400 / 9 then 20 / 3 else if x = 225 / 16 then 15 / 4 else if x = 49 / 9 then 7 / 3 else if x = 49 / 16 then 7 / 4 else 0
 example : ¬ Flat ⟨155/36, 59/18, -37/18⟩ ⟨5/3, -2/3, -14/3⟩ ∧
     TransformKernels.rytzS sqrtS ⟨155/36, 59/18, -37/18⟩ ⟨5/3, -2/3, -14/3⟩ = .ok (⟨40/9, 20/9, -40/9⟩, ⟨-5/4, -5/2, -5/2⟩, 9 / 16) := by decide +kernel
+
+-- translate laws on a tilted OCS: TEXT at OCS (1, 2, 3) of `tilt`, offset (10, 20, 30)
+example : tilt.toWcs (TransformKernels.translateText tilt.t tilt.m ⟨1, 2, 3⟩ ⟨0, 0, 3⟩ 10 20 30).1 = V3.add (tilt.toWcs ⟨1, 2, 3⟩) ⟨10, 20, 30⟩ ∧
+    (TransformKernels.translateText tilt.t tilt.m ⟨1, 2, 3⟩ ⟨0, 0, 3⟩ 10 20 30).1 ≠ V3.add ⟨1, 2, 3⟩ (tilt.toWcs ⟨10, 20, 30⟩) := by decide +kernel
+
+-- matrix44_spec / matrix44_base_point_law: tilted OCS, rotation (3/5, 4/5), scale (2, 1, 1), base point (1, 1, 1)
+example : tilt.Orthonormal ∧ tilt.RightHanded ∧
+    TransformKernels.insertMatrixGen true tilt.m 2 1 1 ⟨1, 2, 3⟩ ⟨1, 1, 1⟩ (3 / 5) (4 / 5) 1 = .ok (insertMatrix tilt insA ⟨1, 1, 1⟩) ∧
+    TransformKernels.insertMatrixGen_rad1 true tilt.m 2 1 1 ⟨1, 2, 3⟩ ⟨1, 1, 1⟩ (3 / 5) (4 / 5) = 1 := by decide +kernel
 
 -- temp_transform_law: hypotheses met by a non-trivial history (rotation, mirror)
 example : AllAffine [rot5, mirrorX] ∧ M44.IsAffine rot5 := by decide +kernel
